@@ -42,6 +42,7 @@ MUTANTS = [
     ("C05", "depth counter in a global atomic left set by a failing closure", "@patch", "/verif/tools/mutants05/g1_global_depth_counter.diff", None),
     ("C16", "flag in a global atomic left set by a failed deserialization", "@patch", "/verif/tools/mutants16/g1_global_flag.diff", None),
     ("C17", "first_derivative re-raises the callable's exception without its traceback", "@patch", "/verif/tools/mutants17/t1_traceback_stripped.diff", None),
+    ("C17", "fixed-size first_derivative getter hands out its entries reversed", "src/python/dual.rs", "self.0.eps.0.map(|eps| eps.data.0[0])", "self.0.eps.0.map(|eps| { let mut a = eps.data.0[0]; a.reverse(); a })"),
     # ---- C16: stored form (fault-free), and errors of the data format swallowed (only under a fault at the seam) ------
     ("C16", "Dual: result of one serialize_field ignored (hand-written Serialize)", "@patch", "/verif/tools/mutants16/m1_ser_field_error_ignored.diff", None),
     ("C16", "Dual2: real part stored under another name", "@patch", "/verif/tools/mutants16/m2_field_renamed.diff", None),
